@@ -76,33 +76,33 @@ static void c03_admin(Buf *b, int nops) {
         int k = rnd(20); int pp = chance(70); g_pp = pp;
         char pw[12]; int ah;
         #define PICKPW(h) do { ah = (h); strcpy(pw, a.auth[ah]); if (ah != 3 && chance(6)) strcpy(pw, "zz"); } while (0)
-        if (k < 4) { PICKPW(rnd(4)); char na[12]; memset(na, 0, sizeof na); c03a_newauth(na); int nal = strlen(na); if (chance(15)) nal += 1 + rnd(2);   /* trailing zeros are not part of an authValue */
+        if (k < 3) { PICKPW(rnd(4)); char na[12]; memset(na, 0, sizeof na); c03a_newauth(na); int nal = strlen(na); if (chance(15)) nal += 1 + rnd(2);   /* trailing zeros are not part of an authValue */
             cmd_begin(b, ST_SESSIONS, CC_HierarchyChangeAuth); b_u32(b, C03A_H[ah]); c03a_pw(b, pw); b_2b(b, na, nal); Rsp r = run(b);
             tr_begin("a op=changeauth ah=%d pp=%d rc=%u", ah, pp, r.rc); trhex("pw", (uint8_t *)pw, strlen(pw)); trhex("new", (uint8_t *)na, nal); tr_end();
             if (r.rc == 0) strcpy(a.auth[ah], na); }
-        else if (k < 6) { PICKPW(rnd(4)); uint8_t dg[48]; int alg = chance(25) ? ALG_NULL : chance(70) ? ALG_SHA256 : ALG_SHA384; int dl = alg == ALG_NULL ? 0 : alg == ALG_SHA256 ? 32 : 48; for (int q = 0; q < dl; q++) dg[q] = rnd(256);
+        else if (k < 5) { PICKPW(rnd(4)); uint8_t dg[48]; int alg = chance(25) ? ALG_NULL : chance(70) ? ALG_SHA256 : ALG_SHA384; int dl = alg == ALG_NULL ? 0 : alg == ALG_SHA256 ? 32 : 48; for (int q = 0; q < dl; q++) dg[q] = rnd(256);
             cmd_begin(b, ST_SESSIONS, CC_SetPrimaryPolicy); b_u32(b, C03A_H[ah]); c03a_pw(b, pw); b_2b(b, dg, dl); b_u16(b, alg); Rsp r = run(b);
             tr_begin("a op=setpolicy ah=%d pp=%d alg=%u rc=%u", ah, pp, alg, r.rc); trhex("pw", (uint8_t *)pw, strlen(pw)); trhex("digest", dg, dl); tr_end(); }
-        else if (k < 8) { PICKPW(chance(50) ? 2 : 3); int dis = rnd(2);
+        else if (k < 7) { PICKPW(chance(50) ? 2 : 3); int dis = rnd(2);
             cmd_begin(b, ST_SESSIONS, CC_ClearControl); b_u32(b, C03A_H[ah]); c03a_pw(b, pw); b_u8(b, dis); Rsp r = run(b);
             tr_begin("a op=clearcontrol ah=%d pp=%d disable=%d rc=%u", ah, pp, dis, r.rc); trhex("pw", (uint8_t *)pw, strlen(pw)); tr_end(); }
-        else if (k == 8) { PICKPW(chance(50) ? 2 : 3);
+        else if (k == 7) { PICKPW(chance(50) ? 2 : 3);
             cmd_begin(b, ST_SESSIONS, CC_Clear); b_u32(b, C03A_H[ah]); c03a_pw(b, pw); Rsp r = run(b);
             tr_begin("a op=clear ah=%d pp=%d rc=%u", ah, pp, r.rc); trhex("pw", (uint8_t *)pw, strlen(pw)); tr_end();
             if (r.rc == 0) { a.auth[0][0] = a.auth[1][0] = a.auth[3][0] = 0; } }
-        else if (k == 9) { PICKPW(2); int eps = rnd(2);
+        else if (k == 8) { PICKPW(2); int eps = rnd(2);
             cmd_begin(b, ST_SESSIONS, eps ? CC_ChangeEPS : CC_ChangePPS); b_u32(b, RH_PLATFORM); c03a_pw(b, pw); Rsp r = run(b);
             tr_begin("a op=%s ah=2 pp=%d rc=%u", eps ? "changeeps" : "changepps", pp, r.rc); trhex("pw", (uint8_t *)pw, strlen(pw)); tr_end();
             if (r.rc == 0 && eps) a.auth[1][0] = 0; }
-        else if (k < 13) { int en = rnd(3); int state = chance(55); int who = chance(60) ? 2 : (en == 2 ? rnd(2) : en); PICKPW(who);
+        else if (k < 12) { int en = rnd(3); int state = chance(55); int who = chance(60) ? 2 : (en == 2 ? rnd(2) : en); PICKPW(who);
             cmd_begin(b, ST_SESSIONS, CC_HierarchyControl); b_u32(b, C03A_H[ah]); c03a_pw(b, pw); b_u32(b, en == 0 ? RH_OWNER : en == 1 ? RH_ENDORSEMENT : 0x4000000Du); b_u8(b, state); Rsp r = run(b);
             tr_begin("a op=control ah=%d pp=%d en=%d state=%d rc=%u", ah, pp, en, state, r.rc); trhex("pw", (uint8_t *)pw, strlen(pw)); tr_end(); }
-        else if (k < 15) { PICKPW(chance(70) ? 0 : 2); int chg = chance(20); int alg = chg ? (chance(50) ? ALG_SHA1 : chance(50) ? ALG_SHA384 : ALG_SHA256) : (chance(80) ? ALG_NULL : ALG_SHA256);
+        else if (k < 14) { PICKPW(chance(70) ? 0 : 2); int chg = chance(20); int alg = chg ? (chance(50) ? ALG_SHA1 : chance(50) ? ALG_SHA384 : ALG_SHA256) : (chance(80) ? ALG_NULL : ALG_SHA256);
             uint32_t set[3], clr[3]; int ns = chance(chg ? 10 : 90) ? rnd(3) : 0, nc = chance(chg ? 10 : 70) ? rnd(3) : 0; for (int q = 0; q < ns; q++) set[q] = AUD[rnd(10)]; for (int q = 0; q < nc; q++) clr[q] = AUD[rnd(10)];
             cmd_begin(b, ST_SESSIONS, CC_SetCommandCodeAuditStatus); b_u32(b, C03A_H[ah]); c03a_pw(b, pw); b_u16(b, alg); b_u32(b, ns); for (int q = 0; q < ns; q++) b_u32(b, set[q]); b_u32(b, nc); for (int q = 0; q < nc; q++) b_u32(b, clr[q]);
             Rsp r = run(b);
             tr_begin("a op=setaudit ah=%d pp=%d alg=%u rc=%u", ah, pp, alg, r.rc); trhex("pw", (uint8_t *)pw, strlen(pw)); c03a_trccs("set", set, ns); c03a_trccs("clear", clr, nc); tr_end(); }
-        else if (k == 15) { PICKPW(2); uint32_t set[3], clr[3]; int ns = rnd(3), nc = rnd(3); for (int q = 0; q < ns; q++) set[q] = PPC[rnd(10)]; for (int q = 0; q < nc; q++) clr[q] = PPC[rnd(10)];
+        else if (k < 16) { PICKPW(2); uint32_t set[3], clr[3]; int ns = rnd(3), nc = rnd(3); for (int q = 0; q < ns; q++) set[q] = PPC[rnd(10)]; for (int q = 0; q < nc; q++) clr[q] = PPC[rnd(10)];
             cmd_begin(b, ST_SESSIONS, CC_PP_Commands); b_u32(b, RH_PLATFORM); c03a_pw(b, pw); b_u32(b, ns); for (int q = 0; q < ns; q++) b_u32(b, set[q]); b_u32(b, nc); for (int q = 0; q < nc; q++) b_u32(b, clr[q]);
             Rsp r = run(b);
             tr_begin("a op=ppcommands ah=2 pp=%d rc=%u", pp, r.rc); trhex("pw", (uint8_t *)pw, strlen(pw)); c03a_trccs("set", set, ns); c03a_trccs("clear", clr, nc); tr_end(); }
